@@ -1,5 +1,6 @@
 """C05 -- stopping and resuming at any batch boundary does not change the result."""
-from ..persist import rule_P1_P2, rule_P3, rule_P4_sampler, rule_P4_bound, rule_P5
+from ..persist import (rule_P0, rule_P1_P2, rule_P3, rule_P4_sampler, rule_P4_bound,
+                       rule_P5)
 from ..effects import rule_F3, rule_F4
 
 LEVEL_TEXT = ('Static persistence-completeness analysis: effect sets of the code that runs '
@@ -17,6 +18,12 @@ def run(ctx):
     S = prog.cls('Sampler')
     init = prog.func('Sampler.__init__')
     rule_P4_sampler(ctx)
+    roots = [prog.func('Sampler.run')] + [f for f in S.methods.values() if f.kind == 'setter']
+    rule_P0(ctx, 'Sampler', roots, prog.func('Sampler.write'))
+    for cname in ('NautilusBound', 'Union'):
+        c = prog.cls(cname)
+        rule_P0(ctx, cname, [c.methods[m] for m in ('sample', 'log_v', 'reset')
+                             if m in c.methods], c.methods['write'])
     for cname in ('NautilusBound', 'Union'):
         rule_P4_bound(ctx, prog.cls(cname))
     rule_P1_P2(ctx, 'Sampler', prog.func('Sampler.write'), init, 'self',
@@ -28,6 +35,7 @@ def run(ctx):
     rule_F3(ctx)
     rule_F4(ctx)
     ctx.floor('P4', 25, 'incremental-update obligations')
+    ctx.floor('P0', 20, 'mutable attributes')
     ctx.floor('P6', 6, 'state-change sites in run()')
     ctx.floor('P1', 30, 'key obligations')
     ctx.floor('P2', 20, 'key/attribute pairs')
